@@ -117,6 +117,13 @@ CLAIMED["C14"] = ("DESIGN.md §4 C14",
     "declared (renamed) key in declaration order with identical, injective key maps, tuple structs use indices 0..n with the right arity test, enums map declared strings "
     "both ways; every json! literal expands to a constructor tree of the literal's shape. Numeric casts and programs outside the corpus are not decided.")
 
+CLAIMED["C16"] = ("DESIGN.md §4 C16",
+    "R-FIELDS/R-SIBLING (key predicates of get and set), R-PAIR (queue mutation <-> size counter on the same path), R-DOM with normalised comparison facts (room before insert, freshness before return, fit before set), R-FLOW (same cached item for body and type; lock guards)",
+    "Decides: get and set select on (route, host) of the parameters; pop_front/remove/push_back are each paired with the size update of exactly that item; push_back happens "
+    "only under cache_size + value.len() <= cache_limit and after an existing entry for the key was removed; get returns Some(item) only under age(item) <= time limit for the "
+    "item the lookup found; the handler calls set only when size_limit >= len, through the write guard, with the bytes it serves, and a hit serves body and type of one cached item. "
+    "Operation histories and clock anomalies are not decided.")
+
 NOT_YET = {}
 
 NOT_APPLICABLE = {
